@@ -27,15 +27,15 @@ def extract(ctx):
     # R13: a throw ends the function with the flag set; callers test the flag (see R13b)
     text, n13 = re.subn(r'\bthrow\s+[^;]*;', '{ vx_throw(); return 0; }', text)
     # R12: `const T& x = c ? a : b;` on class lvalues (symex crash) -> pointer selection, same object either way
-    text, n12 = re.subn(r'const\s+std::string&\s+tmp\s*=\s*parsingBinary\s*\?\s*binaryNumber\s*:\s*str\s*;',
-                        'const std::string* vx_tmp_p = &str; if (parsingBinary) vx_tmp_p = &binaryNumber; const std::string& tmp = *vx_tmp_p;', text)
+    text, n12 = re.subn(r'const\s+std::string\s*&\s*(\w+)\s*=\s*(\w+)\s*\?\s*(\w+)\s*:\s*(\w+)\s*;',
+                        r'const std::string* vx_tmp_p = &\4; if (\2) vx_tmp_p = &\3; const std::string& \1 = *vx_tmp_p;', text)
     # R13b: try { CALL; } catch (...) { return false; }  ->  CALL; if (vx_threw()) return false;   (exceptions are carried by the flag)
     text, n13b = re.subn(r'try\s*\{\s*([^{}]*?;)\s*\}\s*catch\s*\(\.\.\.\)\s*\{\s*return\s+false;\s*\}', r'\1 if (vx_threw_get()) return false;', text)
     # CBMC does not resolve the free operator+(const char*, const std::string&): spelled as a plain call of the same function
     text, n21 = re.subn(r'("[^"]*")\s*\+\s*(\w+\.substr\([^)]*\))', r'std::vx_concat(\1, \2)', text)
     log['R21 "lit" + s.substr(..) -> vx_concat(..)'] = n21
     # auto iterators of the scaffold string are const char*
-    text, n2 = re.subn(r'\bauto\s+(itPrefix|itElement)\b', r'const char* \1', text)
+    text, n2 = re.subn(r'\bauto\s+(\w+)\s*=\s*(\w+)\.begin\(\)', r'const char* \1 = \2.begin()', text)
     log.update({'R8 std::sto* -> vx_sto*': n8, 'R6 numeric_limits': n6, 'R13 throw -> flag': n13, 'R12 ?: on class lvalues -> pointer selection': n12,
                 'R13b try/catch(...) -> flag test': n13b, 'R2 auto iterator -> const char* (scaffold string)': n2})
     if n12 != 2 or n13b != 2 or n8 < 2 or n2 != 2:
